@@ -120,7 +120,8 @@ func (bA *BitArray) Or(o *BitArray) *BitArray {
 	bA.mtx.Lock()
 	defer bA.mtx.Unlock()
 	c := bA.copyBits(MaxInt(bA.Bits, o.Bits))
-	for i := 0; i < len(c.Elems); i++ {
+	// o may be the shorter of the two: only its own elements can be or-ed in
+	for i := 0; i < len(c.Elems) && i < len(o.Elems); i++ {
 		c.Elems[i] |= o.Elems[i]
 	}
 	return c
